@@ -275,10 +275,12 @@ func (r *Run) schedule() {
 			te.ch.buf = append(te.ch.buf, r.zero(te.ch.typ.Elem()))
 			te.ch.bufvc = append(te.ch.bufvc, nil)
 			r.sched = append(r.sched, -1-te.id)
+			r.schedPartner = append(r.schedPartner, -1)
 			continue
 		}
 		t := en[k]
 		r.sched = append(r.sched, t.id)
+		r.schedPartner = append(r.schedPartner, -1)
 		t.granted = true
 		t.waiting = false
 		r.lastRun = t
@@ -387,6 +389,9 @@ func (r *Run) doRecv(t *Thread, ch *ChanObj) (Value, bool) {
 		comp := u.pend.complete
 		u.waiting = false
 		u.pend = nil
+		if n := len(r.schedPartner); n > 0 {
+			r.schedPartner[n-1] = u.id
+		}
 		comp(ci, nil, true)
 		return v, true
 	}
@@ -410,6 +415,9 @@ func (r *Run) doSend(t *Thread, ch *ChanObj, v Value) {
 		comp := u.pend.complete
 		u.waiting = false
 		u.pend = nil
+		if n := len(r.schedPartner); n > 0 {
+			r.schedPartner[n-1] = u.id
+		}
 		comp(ci, v, true)
 		return
 	}
